@@ -552,23 +552,25 @@ func configs(quick bool) []Cfg {
 		}
 		return out
 	}
-	scripts := []string{"concat1", "concat2", "wasm1", "noreturn", "trap"}
-	var am [][2]uint64
-	for a := uint64(1); a <= 3; a++ {
-		for mn := uint64(1); mn <= a; mn++ {
-			am = append(am, [2]uint64{a, mn})
-		}
+	// thorough: 12 template pairs covering every script and every ask/min pair (each at least once, IBC-originated
+	// variants included) x expiration_block_count in {1,2,3}, up to 3 requests in flight, depth 8
+	pairs := [][2]Template{
+		{{Script: "concat1", Ask: 1, Min: 1}, {Script: "concat2", Ask: 3, Min: 3}},
+		{{Script: "concat1", Ask: 2, Min: 1}, {Script: "wasm1", Ask: 2, Min: 2}},
+		{{Script: "concat1", Ask: 3, Min: 2}, {Script: "noreturn", Ask: 3, Min: 1}},
+		{{Script: "concat2", Ask: 2, Min: 2}, {Script: "trap", Ask: 1, Min: 1}},
+		{{Script: "concat2", Ask: 3, Min: 1}, {Script: "concat1", Ask: 3, Min: 3}},
+		{{Script: "wasm1", Ask: 3, Min: 2}, {Script: "trap", Ask: 3, Min: 3}},
+		{{Script: "wasm1", Ask: 1, Min: 1}, {Script: "noreturn", Ask: 2, Min: 2}},
+		{{Script: "noreturn", Ask: 2, Min: 1}, {Script: "trap", Ask: 2, Min: 1}},
+		{{Script: "trap", Ask: 3, Min: 2}, {Script: "concat2", Ask: 1, Min: 1}},
+		{{Script: "concat1", Ask: 2, Min: 1, IBC: true}, {Script: "concat1", Ask: 2, Min: 2}},
+		{{Script: "trap", Ask: 2, Min: 2, IBC: true}, {Script: "wasm1", Ask: 3, Min: 1, IBC: true}},
+		{{Script: "noreturn", Ask: 1, Min: 1, IBC: true}, {Script: "concat2", Ask: 3, Min: 2}},
 	}
-	i := 0
-	for _, sc := range scripts {
-		for _, p := range am {
-			// pair every template with a rotating partner so every script and every ask/min pair occurs in both roles
-			q := am[(i+2)%len(am)]
-			partner := scripts[(i+1)%len(scripts)]
-			i++
-			for _, exp := range []uint64{1, 2, 3} {
-				out = append(out, Cfg{Templates: []Template{{Script: sc, Ask: p[0], Min: p[1]}, {Script: partner, Ask: q[0], Min: q[1], IBC: i%3 == 0}}, MaxReq: 3, Expiration: exp, Depth: 9, Shapes: allShapes})
-			}
+	for _, pr := range pairs {
+		for _, exp := range []uint64{1, 2, 3} {
+			out = append(out, Cfg{Templates: []Template{pr[0], pr[1]}, MaxReq: 3, Expiration: exp, Depth: 8, Shapes: allShapes})
 		}
 	}
 	return out
@@ -578,7 +580,7 @@ func init() {
 	engine.Register(&engine.Check{
 		ID: "C01",
 		Run: func(r *engine.Run) {
-			r.Bound = "3 validators; <=2 (quick) / <=3 (thorough) requests in flight from 2 templates per configuration; every (request, validator, shape) report incl. non-chosen, duplicate, late and unknown-request; depth 7 / 9; expiration_block_count in {1,2} / {1,2,3}"
+			r.Bound = "3 validators; <=2 (quick) / <=3 (thorough) requests in flight from 2 templates per configuration; every (request, validator, shape) report incl. non-chosen, duplicate, late and unknown-request; depth 7 / 8; expiration_block_count in {1,2} / {1,2,3}"
 			r.Assumptions = []string{
 				"committee (RequestedValidators) is taken as given from the stored request: selection is C09's subject",
 				"request acceptance w.r.t. fees is C13's subject; the payer is always funded",
@@ -588,11 +590,11 @@ func init() {
 			r.Required = []string{"resolve-status:1", "resolve-status:2", "resolve-status:3",
 				"rep:ok:ok", "rep:ok:oracle/10", "rep:ok:oracle/11", "rep:ok:oracle/39", "rep:ok:oracle/5",
 				"rep:wrongeid:oracle/6", "rep:extra:oracle/12", "rep:dup:oracle/30", "auth:true", "auth:false", "req-ibc:ok"}
-			deadline := r.Deadline(4*time.Minute, 40*time.Minute)
 			authSubcheck(r)
-			for i, c := range configs(r.Quick()) {
+			cfgs := configs(r.Quick())
+			for i, c := range cfgs {
 				sp := &spec{cfg: c}
-				sr := engine.Search(sp, engine.SearchOpts{Depth: c.Depth, Deadline: deadline})
+				sr := engine.Search(sp, engine.SearchOpts{Depth: c.Depth, Deadline: r.SliceDeadline(i, len(cfgs), 6*time.Minute, 40*time.Minute)})
 				r.AddSearch(fmt.Sprintf("cfg%d[%s+%s,exp=%d]", i, c.Templates[0], c.Templates[1], c.Expiration), c, sr)
 				if len(r.Violations) > 0 {
 					break
